@@ -1,46 +1,63 @@
 ------------------------------ MODULE FloatSym ------------------------------
-(* C02 - floating-point and complex operators on a SYMBOLIC domain.          *)
-(*                                                                           *)
-(* TLC has no reals.  A float is NaN, +-Inf, +-0 or an exact dyadic rational *)
-(* (-1)^s * m * 2^e with m odd and below 2^30.  Every operator gives         *)
-(*   - the IEEE 754 special-value result (NaN propagation, Inf - Inf,        *)
-(*     0 * Inf, x / 0, signs of zeros, comparisons with NaN, -0 = +0),       *)
-(*   - the exact result whenever the exact result is representable in the    *)
-(*     format (then no rounding takes place, whatever the rounding mode),    *)
-(*   - +-Inf when the exact result is at or beyond 2^emax (overflow),        *)
-(*   - Unspec otherwise: the result needs rounding, which this module does   *)
-(*     not specify.  Unspec rows are not used by the harness.                *)
-(* Complex numbers are pairs; multiplication and division follow the formulas *)
-(* the Go compiler and runtime use (so that signs of zero agree) and are     *)
-(* specified only where every intermediate result is exact.                  *)
+(* C02 - floating-point and complex operators: IEEE 754 binary32 / binary64    *)
+(* arithmetic with round-to-nearest-even, specified exactly.                   *)
+(*                                                                             *)
+(* TLC has no reals.  A float is NaN, +-Inf, +-0 or a dyadic rational          *)
+(* (-1)^s * m * 2^e, where m is an odd natural number of ANY size kept as a    *)
+(* magnitude of BigInt.tla (little-endian limbs of 15 bits).  Every operator   *)
+(* computes the exact result as a dyadic (for the quotient: enough quotient    *)
+(* bits plus a sticky bit) and rounds it ONCE to the format: nearest, ties to  *)
+(* even, gradual underflow, overflow to infinity.  Special values follow the   *)
+(* IEEE table (NaN propagation, Inf - Inf, 0 * Inf, x / 0, signs of zeros,     *)
+(* comparisons with NaN, -0 = +0).  The name FloatSym is historical: the first *)
+(* version specified only results that need no rounding ("Unspec" otherwise);  *)
+(* Unspec remains for what the language leaves to the implementation.          *)
+(* Complex numbers are pairs; multiplication and division follow the formulas  *)
+(* the Go compiler and runtime use (intermediates in float64, one conversion   *)
+(* to the format at the end).                                                  *)
 EXTENDS BV
+BN == INSTANCE BigInt
 
-NaN       == [c |-> "nan",    s |-> 0, m |-> 0, e |-> 0]
-Inf(s)    == [c |-> "inf",    s |-> s, m |-> 0, e |-> 0]
-Zr(s)     == [c |-> "zero",   s |-> s, m |-> 0, e |-> 0]
-Unspec    == [c |-> "unspec", s |-> 0, m |-> 0, e |-> 0]
-Fin(s, m, e) == [c |-> "fin", s |-> s, m |-> m, e |-> e]      \* m odd, m > 0
+NaN       == [c |-> "nan",    s |-> 0, m |-> <<>>, e |-> 0]
+Inf(s)    == [c |-> "inf",    s |-> s, m |-> <<>>, e |-> 0]
+Zr(s)     == [c |-> "zero",   s |-> s, m |-> <<>>, e |-> 0]
+Unspec    == [c |-> "unspec", s |-> 0, m |-> <<>>, e |-> 0]
+FinM(s, m, e) == [c |-> "fin", s |-> s, m |-> m, e |-> e]             \* m an odd magnitude
+Fin(s, n, e)  == FinM(s, BN!MFromNat(n), e)                            \* n an odd natural below 2^30
 
+\* p: precision; emin: exponent of the smallest subnormal (the smallest quantum); every finite
+\* value is below 2^emax
 F32 == [name |-> "float32", p |-> 24, emin |-> -149,  emax |-> 128]
 F64 == [name |-> "float64", p |-> 53, emin |-> -1074, emax |-> 1024]
 Formats == {F32, F64}
 
-MaxBits == 30                      \* TLC integers: keep every mantissa below 2^30
-RECURSIVE BitLen(_)
-BitLen(m) == IF m = 0 THEN 0 ELSE 1 + BitLen(m \div 2)
-RECURSIVE Norm(_, _)
-Norm(m, e) == IF m % 2 = 0 THEN Norm(m \div 2, e + 1) ELSE <<m, e>>
 Flip(s) == 1 - s
 SX(s, t) == IF s = t THEN 0 ELSE 1
+MaxI(a, b) == IF a > b THEN a ELSE b
+MinI(a, b) == IF a < b THEN a ELSE b
 
-\* the float of format F that equals (-1)^s * m * 2^e exactly, if there is one
-Result(F, s, m, e) ==
-    IF m = 0 THEN Zr(s)
-    ELSE LET n == Norm(m, e)  mm == n[1]  ee == n[2]  bl == BitLen(mm) IN
-         IF ee + bl > F.emax THEN Inf(s)                       \* |x| >= 2^emax
-         ELSE IF bl <= F.p /\ ee >= F.emin THEN Fin(s, mm, ee)
-         ELSE Unspec
-InFormat(F, x) == x.c # "unspec" /\ (x.c = "fin" => Result(F, x.s, x.m, x.e) = x)
+\* (-1)^s * m * 2^e with m any non-zero magnitude, in normal form (m odd)
+NormM(s, m, e) == LET tz == BN!MTz(m) IN FinM(s, BN!MShr(m, tz), e + tz)
+
+\* THE rounding step: the float of format F nearest to (-1)^s * m * 2^e (m any magnitude),
+\* ties to the even neighbour; the quantum is 2^q with q = max(top - p, emin)
+Round(F, s, m, e) ==
+    IF m = <<>> THEN Zr(s)
+    ELSE LET top == e + BN!MBitLen(m)                      \* 2^(top-1) <= |x| < 2^top
+             q   == MaxI(top - F.p, F.emin)
+         IN IF e >= q THEN (IF top > F.emax THEN Inf(s) ELSE NormM(s, m, e))
+            ELSE LET d    == q - e                         \* bits below the quantum
+                     m0   == BN!MShr(m, d)
+                     c    == BN!MCmp(BN!MLow(m, d), BN!MPow2(d - 1))
+                     up   == c > 0 \/ (c = 0 /\ BN!Limb(m0, 1) % 2 = 1)
+                     m1   == IF up THEN BN!MAdd(m0, <<1>>) ELSE m0
+                 IN IF m1 = <<>> THEN Zr(s)
+                    ELSE IF q + BN!MBitLen(m1) > F.emax THEN Inf(s)
+                    ELSE NormM(s, m1, q)
+\* the result is exact (no rounding took place) - used by the sanity invariants
+Exact(F, x) == x.c # "fin" \/ Round(F, x.s, x.m, x.e) = x
+InFormat(F, x) == x.c # "unspec" /\ Exact(F, x)
+Result(F, s, n, e) == Round(F, s, BN!MFromNat(n), e)
 
 NegF(x) == IF x.c \in {"nan", "unspec"} THEN x ELSE [x EXCEPT !.s = Flip(x.s)]
 
@@ -52,14 +69,14 @@ AddF(F, x, y) ==
     ELSE IF x.c = "zero" /\ y.c = "zero" THEN (IF x.s = y.s THEN x ELSE Zr(0))
     ELSE IF x.c = "zero" THEN y
     ELSE IF y.c = "zero" THEN x
-    ELSE LET e  == IF x.e < y.e THEN x.e ELSE y.e
-             dx == x.e - e   dy == y.e - e
-         IN IF dx + BitLen(x.m) > MaxBits - 1 \/ dy + BitLen(y.m) > MaxBits - 1 THEN Unspec
-            ELSE LET vx == (IF x.s = 1 THEN -1 ELSE 1) * x.m * 2^dx
-                     vy == (IF y.s = 1 THEN -1 ELSE 1) * y.m * 2^dy
-                     v  == vx + vy
-                 IN IF v = 0 THEN Zr(0)                         \* exact zero sum: +0
-                    ELSE Result(F, IF v < 0 THEN 1 ELSE 0, IF v < 0 THEN -v ELSE v, e)
+    ELSE LET e  == MinI(x.e, y.e)
+             ax == BN!MShl(x.m, x.e - e)
+             ay == BN!MShl(y.m, y.e - e)
+         IN IF x.s = y.s THEN Round(F, x.s, BN!MAdd(ax, ay), e)
+            ELSE LET c == BN!MCmp(ax, ay) IN
+                 IF c = 0 THEN Zr(0)                               \* exact zero sum: +0
+                 ELSE IF c > 0 THEN Round(F, x.s, BN!MSub(ax, ay), e)
+                 ELSE Round(F, y.s, BN!MSub(ay, ax), e)
 SubF(F, x, y) == AddF(F, x, NegF(y))
 
 MulF(F, x, y) ==
@@ -68,9 +85,11 @@ MulF(F, x, y) ==
     ELSE IF (x.c = "inf" /\ y.c = "zero") \/ (x.c = "zero" /\ y.c = "inf") THEN NaN
     ELSE IF x.c = "inf" \/ y.c = "inf" THEN Inf(SX(x.s, y.s))
     ELSE IF x.c = "zero" \/ y.c = "zero" THEN Zr(SX(x.s, y.s))
-    ELSE IF BitLen(x.m) + BitLen(y.m) > MaxBits THEN Unspec
-    ELSE Result(F, SX(x.s, y.s), x.m * y.m, x.e + y.e)
+    ELSE Round(F, SX(x.s, y.s), BN!MMul(x.m, y.m), x.e + y.e)
 
+\* x / y = (mx / my) * 2^(ex - ey).  The quotient of the magnitudes is computed to F.p + 3 bits
+\* at least, and a sticky bit (is the division inexact) is appended below them: rounding the
+\* result to at most F.p bits then gives the correctly rounded quotient.
 QuoF(F, x, y) ==
     IF x.c = "unspec" \/ y.c = "unspec" THEN Unspec
     ELSE IF x.c = "nan" \/ y.c = "nan" THEN NaN
@@ -79,14 +98,16 @@ QuoF(F, x, y) ==
     ELSE IF y.c = "inf" THEN Zr(SX(x.s, y.s))
     ELSE IF y.c = "zero" THEN Inf(SX(x.s, y.s))                 \* finite non-zero / 0
     ELSE IF x.c = "zero" THEN Zr(SX(x.s, y.s))
-    ELSE IF x.m % y.m # 0 THEN Unspec                           \* quotient is not dyadic
-    ELSE Result(F, SX(x.s, y.s), x.m \div y.m, x.e - y.e)
+    ELSE LET k  == MaxI(0, F.p + 3 + BN!MBitLen(y.m) - BN!MBitLen(x.m))
+             qr == BN!MDivMod(BN!MShl(x.m, k), y.m)
+             mq == BN!MAdd(BN!MShl(qr[1], 1), IF qr[2] = <<>> THEN <<>> ELSE <<1>>)
+         IN Round(F, SX(x.s, y.s), mq, x.e - y.e - k - 1)
 
-\* order
+\* order (exact)
+MagCmp(x, y) == LET e == MinI(x.e, y.e) IN BN!MCmp(BN!MShl(x.m, x.e - e), BN!MShl(y.m, y.e - e))
 MagLt(x, y) ==
-    LET tx == x.e + BitLen(x.m)  ty == y.e + BitLen(y.m) IN
-    IF tx # ty THEN tx < ty
-    ELSE IF x.e >= y.e THEN x.m * 2^(x.e - y.e) < y.m ELSE x.m < y.m * 2^(y.e - x.e)
+    LET tx == x.e + BN!MBitLen(x.m)  ty == y.e + BN!MBitLen(y.m) IN
+    IF tx # ty THEN tx < ty ELSE MagCmp(x, y) < 0
 Rank(x) == CASE x.c = "inf"  -> (IF x.s = 1 THEN -2 ELSE 2)
              [] x.c = "zero" -> 0
              [] x.c = "fin"  -> (IF x.s = 1 THEN -1 ELSE 1)
@@ -101,35 +122,33 @@ LeF(x, y) == LtF(x, y) \/ EqF(x, y)
 GeF(x, y) == LtF(y, x) \/ EqF(x, y)
 
 One_F == Fin(0, 1, 0)
-ConvFF(F2, x) == IF x.c = "fin" THEN Result(F2, x.s, x.m, x.e) ELSE x
+\* conversion between the formats: one rounding (exact when widening)
+ConvFF(F2, x) == IF x.c = "fin" THEN Round(F2, x.s, x.m, x.e) ELSE x
 
 -----------------------------------------------------------------------------
 (* integer <-> float                                                          *)
-RECURSIVE LowBitFrom(_, _), HighBitFrom(_, _)
-LowBitFrom(x, i)  == IF Bit(x, i) = 1 THEN i ELSE LowBitFrom(x, i + 1)
-HighBitFrom(x, i) == IF Bit(x, i) = 1 THEN i ELSE HighBitFrom(x, i - 1)
+\* a 64-bit pattern (5 limbs of 15 bits, BV.tla) and a magnitude use the same limb base
+BVToMag(x) == BN!MNorm(x)
+MagToBV(m) == [i \in 1..5 |-> BN!Limb(m, i)]
+\* exact when the integer has at most F.p significant bits, rounded to nearest even otherwise
 IntToFloat(F, k, x) ==
     IF x = Zero THEN Zr(0)
-    ELSE LET mg == Mag(k, x)  lo == LowBitFrom(mg, 0)  hi == HighBitFrom(mg, 63) IN
-         IF hi - lo + 1 > MaxBits THEN Unspec
-         ELSE LET r == LShr64(mg, lo) IN
-              Result(F, IF IsNeg(k, x) THEN 1 ELSE 0, r[1] + r[2] * B, lo)
+    ELSE Round(F, IF IsNeg(k, x) THEN 1 ELSE 0, BVToMag(Mag(k, x)), 0)
 
-\* truncation toward zero; Unspec when the truncated value is not a value of kind k
-\* (the Go specification leaves that case to the implementation)
-NatToBV(n) == <<n % B, n \div B, 0, 0, 0>>
+\* truncation toward zero; Panic doubles as "unspecified": when the truncated value is not a
+\* value of kind k the Go specification leaves the result to the implementation
 FloatToInt(k, x) ==
     IF x.c = "zero" THEN Zero
-    ELSE IF x.c # "fin" THEN Panic                              \* Panic doubles as "unspecified"
-    ELSE LET mi == IF x.e >= 0 THEN x.m ELSE IF -x.e > MaxBits THEN 0 ELSE x.m \div 2^(-x.e)
-             ei == IF x.e >= 0 THEN x.e ELSE 0
-             top == ei + BitLen(mi)                             \* |v| < 2^top
-         IN IF mi = 0 THEN Zero
+    ELSE IF x.c # "fin" THEN Panic
+    ELSE LET mi  == IF x.e >= 0 THEN x.m ELSE BN!MShr(x.m, -x.e)      \* integer part of m * 2^min(e, 0)
+             ei  == IF x.e >= 0 THEN x.e ELSE 0
+             top == ei + BN!MBitLen(mi)                               \* |v| < 2^top
+             v   == MagToBV(BN!MShl(mi, ei))
+         IN IF mi = <<>> THEN Zero
             ELSE IF x.s = 0 THEN
-                 (IF top <= (IF k.signed THEN k.w - 1 ELSE k.w)
-                  THEN Ext(k, Mul64(NatToBV(mi), TwoTo(ei))) ELSE Panic)
-            ELSE IF k.signed /\ (top <= k.w - 1 \/ (mi = 1 /\ ei = k.w - 1))
-                 THEN Ext(k, Neg64(Mul64(NatToBV(mi), TwoTo(ei)))) ELSE Panic
+                 (IF top <= (IF k.signed THEN k.w - 1 ELSE k.w) THEN Ext(k, v) ELSE Panic)
+            ELSE IF k.signed /\ (top <= k.w - 1 \/ (mi = <<1>> /\ ei = k.w - 1))
+                 THEN Ext(k, Neg64(v)) ELSE Panic
 
 -----------------------------------------------------------------------------
 (* complex numbers                                                            *)
@@ -167,17 +186,44 @@ CommonF == PM({Zr(0), Inf(0), Fin(0,1,0), Fin(0,1,1), Fin(0,1,-1), Fin(0,3,-1), 
                Fin(0,1,8), Fin(0,32767,0), Fin(0,1,15), Fin(0,65535,0), Fin(0,1,16),
                Fin(0,1,31), Fin(0,1,32), Fin(0,1,63), Fin(0,1,64), Fin(0,1,24), Fin(0,16777215,0)})
            \cup {NaN}
-FVals(F) == IF F = F32
-            THEN CommonF \cup PM({Fin(0,1,-149), Fin(0,1,-126), Fin(0,1,127), Fin(0,16777215,104)})
-            ELSE CommonF \cup PM({Fin(0,1,-1074), Fin(0,1,-1022), Fin(0,1,1023), Fin(0,1,53),
-                                  Fin(0,16777217,0), Fin(0,1,-149), Fin(0,1,127)})
+\* values whose sums, products and quotients need rounding: 1/3, 1/10, 1/7 as the format holds them
+\* (full-length mantissas), the neighbours of 1 (1 + ulp, 1 - ulp/2), the largest finite value, the
+\* largest subnormal, 3 * the smallest subnormal, 2^p - 1 (the largest odd integer)
+Third(F)   == QuoF(F, One_F, Fin(0,3,0))
+Tenth(F)   == QuoF(F, One_F, Fin(0,5,1))
+Seventh(F) == QuoF(F, One_F, Fin(0,7,0))
+OnePlus(F)  == FinM(0, BN!MAdd(BN!MPow2(F.p - 1), <<1>>), 1 - F.p)
+OneMinus(F) == FinM(0, BN!MSub(BN!MPow2(F.p), <<1>>), -F.p)
+MaxF(F)     == FinM(0, BN!MSub(BN!MPow2(F.p), <<1>>), F.emax - F.p)
+MaxSub(F)   == FinM(0, BN!MSub(BN!MPow2(F.p - 1), <<1>>), F.emin)
+RoundVals(F) == PM({Third(F), Tenth(F), Seventh(F), OnePlus(F), OneMinus(F), MaxF(F), MaxSub(F), Fin(0,3,F.emin)})
+FVals(F) == (IF F = F32
+             THEN CommonF \cup PM({Fin(0,1,-149), Fin(0,1,-126), Fin(0,1,127), Fin(0,16777215,104)})
+             ELSE CommonF \cup PM({Fin(0,1,-1074), Fin(0,1,-1022), Fin(0,1,1023), Fin(0,1,53),
+                                   Fin(0,16777217,0), Fin(0,1,-149), Fin(0,1,127)}))
+            \cup RoundVals(F)
 \* reduced set for the complete-product part of the quick tier
 FRed(F) == {NaN, Inf(0), Inf(1), Zr(0), Zr(1), Fin(0,1,0), Fin(1,1,0), Fin(0,3,-1), Fin(0,1,24),
-            IF F = F32 THEN Fin(0,1,127) ELSE Fin(0,1,1023)}
+            IF F = F32 THEN Fin(0,1,127) ELSE Fin(0,1,1023), Third(F), NegF(Tenth(F)), OnePlus(F)}
+T32  == Tenth(F32)
+Th32 == Third(F32)
 CVals == {Cx(Zr(0), Zr(0)), Cx(Fin(0,1,0), Zr(0)), Cx(Fin(1,1,0), Zr(0)), Cx(Zr(0), Fin(0,1,0)),
           Cx(Zr(0), Fin(1,1,0)), Cx(Fin(0,1,0), Fin(0,1,0)), Cx(Fin(0,1,0), Fin(1,1,1)),
           Cx(Fin(1,3,-1), Fin(0,1,-1)), Cx(Fin(0,1,1), Zr(0)), Cx(Fin(0,3,0), Fin(0,1,2)),
-          Cx(Zr(0), Fin(0,1,-1)), Cx(Fin(0,1,24), Fin(0,1,0))}
+          Cx(Zr(0), Fin(0,1,-1)), Cx(Fin(0,1,24), Fin(0,1,0)),
+          Cx(T32, Th32), Cx(NegF(Th32), Fin(0,3,0)), Cx(Fin(0,1,0), T32)}
+
+\* untyped CONSTANT operands that the format cannot hold: they are converted to the format by one
+\* rounding of their exact value where they are used (operand of an operator whose other operand is
+\* typed, initial value of a variable).  Around 1: the midpoints of the first two gaps (ties), and
+\* values 2^-(p+36) relative above / below them (for float32 these are the values on which rounding
+\* to float64 first and to float32 afterwards goes the other way); around the largest finite value.
+Half(F, j, d) ==     \* 1 + j * 2^-p + d * 2^-(p+36)    (j odd: a midpoint when d = 0)
+    LET m == BN!MAdd(BN!MShl(BN!MAdd(BN!MPow2(F.p), BN!MFromNat(j)), 36), IF d > 0 THEN <<1>> ELSE <<>>)
+        n == IF d < 0 THEN BN!MSub(m, <<1>>) ELSE m
+    IN NormM(0, n, -F.p - 36)
+ConVals(F) == PM({Half(F, 1, 0), Half(F, 1, 1), Half(F, 1, -1), Half(F, 3, 0), Half(F, 3, 1), Half(F, 3, -1)})
+              \cup {FinM(0, BN!MSub(BN!MPow2(F.p + 40), <<1>>), F.emax - F.p - 40 - 1)}   \* just below MaxF + ulp/2
 
 -----------------------------------------------------------------------------
 (* Table generation (same scheme as BV)                                       *)
@@ -191,7 +237,7 @@ FNext ==
             \E k \in (IF f = "itof" THEN Kinds ELSE {NoKind}) :
               job' = FJob(1, f, F, k, Zero, NoF, NoC)
     \/ /\ job.lvl = 1
-       /\ \/ job.fam \in {"farith", "fconv"} /\ \E x \in FVals(job.F) : job' = [job EXCEPT !.lvl = 2, !.fa = x]
+       /\ \/ job.fam \in {"farith", "fconv", "fcon"} /\ \E x \in FVals(job.F) : job' = [job EXCEPT !.lvl = 2, !.fa = x]
           \/ job.fam = "itof" /\ \E x \in Vals(job.k) : job' = [job EXCEPT !.lvl = 2, !.a = x]
           \/ job.fam = "carith" /\ \E x \in CVals : job' = [job EXCEPT !.lvl = 2, !.ca = x]
     \/ /\ job.lvl = 2
@@ -206,6 +252,11 @@ FRows ==
              eq |-> EqF(x,y), ne |-> NeF(x,y), lt |-> LtF(x,y), le |-> LeF(x,y), gt |-> GtF(x,y),
              ge |-> GeF(x,y), neg |-> NegF(x), inc |-> AddF(F,x,One_F), dec |-> SubF(F,x,One_F),
              red |-> (x \in FRed(F) /\ y \in FRed(F))] : y \in FVals(F)}
+      [] job.fam = "fcon" ->       \* y: an untyped constant, rounded once to the format where it meets x
+           {LET y == Round(F, c.s, c.m, c.e) IN
+            [b |-> c, rb |-> y, add |-> AddF(F,x,y), sub |-> SubF(F,x,y), mul |-> MulF(F,x,y), quo |-> QuoF(F,x,y),
+             eq |-> EqF(x,y), ne |-> NeF(x,y), lt |-> LtF(x,y), le |-> LeF(x,y), gt |-> GtF(x,y),
+             ge |-> GeF(x,y), red |-> x \in FRed(F)] : c \in ConVals(F)}
       [] job.fam = "fconv" ->
            {[k2 |-> k2, red |-> x \in FRed(F), v |-> FloatToInt(k2, x)] : k2 \in Kinds}
       [] job.fam = "itof" ->
@@ -227,40 +278,89 @@ FEmit == job.lvl = 3 =>
 (* What TLC checks on the model itself                                        *)
 Spc(x) == x.c # "unspec"
 ASSUME FDomainOK == \A F \in Formats : (\A x \in FVals(F) : InFormat(F, x)) /\ FRed(F) \subseteq FVals(F)
+\* r is within half a quantum (of r) of the exact value (-1)^s * m * 2^e: a necessary condition of
+\* correct rounding that does not go through Round (normal results only)
+Quantum(F, r) == MaxI(r.e + BN!MBitLen(r.m) - F.p, F.emin)
+ErrOK(F, r, s, m, e) ==
+    (r.c = "fin" /\ m # <<>>) =>
+        /\ r.s = s
+        /\ LET e0 == MinI(e, r.e)
+               av == BN!MShl(m, e - e0)
+               ar == BN!MShl(r.m, r.e - e0)
+               d  == IF BN!MCmp(av, ar) >= 0 THEN BN!MSub(av, ar) ELSE BN!MSub(ar, av)
+               q  == Quantum(F, r)
+           IN q >= e0 => BN!MCmp(BN!MShl(d, 1), BN!MPow2(q - e0)) <= 0
+\* the quotient r of x by y, checked by multiplying back: |r * y - x| <= quantum(r)/2 * |y|
+QuoOK(F, x, y) ==
+    LET r == QuoF(F, x, y) IN
+    (x.c = "fin" /\ y.c = "fin" /\ r.c = "fin") =>
+        LET e0 == MinI(r.e + y.e, x.e)
+            a  == BN!MShl(BN!MMul(r.m, y.m), r.e + y.e - e0)
+            b  == BN!MShl(x.m, x.e - e0)
+            d  == IF BN!MCmp(a, b) >= 0 THEN BN!MSub(a, b) ELSE BN!MSub(b, a)
+            k  == Quantum(F, r) + y.e - e0 + F.p + 1100          \* both sides scaled by 2^(p+1100)
+        IN k >= 0 /\ BN!MCmp(BN!MShl(d, 1 + F.p + 1100), BN!MShl(y.m, k)) <= 0
 SaneFArith == FDone("farith") =>
     LET F == job.F  x == job.fa IN
     /\ NegF(NegF(x)) = x
-    /\ (x.c = "fin" => SubF(F, x, x) = Zr(0) /\ QuoF(F, x, x) = One_F /\ MulF(F, x, One_F) = x)
+    /\ (x.c = "fin" => SubF(F, x, x) = Zr(0) /\ QuoF(F, x, x) = One_F /\ MulF(F, x, One_F) = x /\ AddF(F, x, Zr(0)) = x)
     /\ (x.c = "nan" => ~EqF(x, x) /\ NeF(x, x)) /\ (x.c # "nan" => EqF(x, x))
     /\ \A y \in FVals(F) :
          /\ AddF(F, x, y) = AddF(F, y, x)
          /\ MulF(F, x, y) = MulF(F, y, x)
-         /\ InFormat(F, AddF(F,x,y)) \/ ~Spc(AddF(F,x,y))
-         /\ InFormat(F, MulF(F,x,y)) \/ ~Spc(MulF(F,x,y))
-         /\ InFormat(F, QuoF(F,x,y)) \/ ~Spc(QuoF(F,x,y))
-         \* exact inverses on finite values
-         /\ LET s == AddF(F, x, y) IN (x.c = "fin" /\ y.c = "fin" /\ s.c = "fin" => SubF(F, s, y) = x)
-         /\ LET q == QuoF(F, x, y) IN (x.c = "fin" /\ y.c = "fin" /\ q.c = "fin" => MulF(F, q, y) = x)
-         /\ LET p == MulF(F, x, y) IN (x.c = "fin" /\ y.c = "fin" /\ p.c = "fin" => QuoF(F, p, y) = x)
-         \* order: total on non-NaN, empty with NaN, consistent with subtraction
+         /\ InFormat(F, AddF(F,x,y)) /\ InFormat(F, SubF(F,x,y)) /\ InFormat(F, MulF(F,x,y)) /\ InFormat(F, QuoF(F,x,y))
+         \* rounding error of the product and of the quotient
+         /\ (x.c = "fin" /\ y.c = "fin" => ErrOK(F, MulF(F, x, y), SX(x.s, y.s), BN!MMul(x.m, y.m), x.e + y.e))
+         /\ QuoOK(F, x, y)
+         \* scaling by a power of two is exact as long as the result stays normal
+         /\ LET p == MulF(F, x, Fin(0,1,1)) IN (x.c = "fin" /\ p.c = "fin" /\ x.e + BN!MBitLen(x.m) - F.p >= F.emin
+                                                   => QuoF(F, p, Fin(0,1,1)) = x)
+         \* a sum that is exactly representable is returned exactly, then subtraction undoes it
+         /\ LET s == AddF(F, x, y) IN
+              (x.c = "fin" /\ y.c = "fin" /\ s.c = "fin" /\ SubF(F, s, y) = x /\ SubF(F, s, x) = y) => AddF(F, SubF(F, s, y), y) = s
+         \* order: total on non-NaN, empty with NaN, consistent with subtraction (gradual underflow:
+         \* the difference of two different values is never zero)
          /\ (Ordered(x, y) => (LtF(x, y) = ~GeF(x, y)) /\ (GtF(x, y) = ~LeF(x, y)))
          /\ (~Ordered(x, y) => ~LtF(x,y) /\ ~LeF(x,y) /\ ~GtF(x,y) /\ ~GeF(x,y) /\ ~EqF(x,y) /\ NeF(x,y))
          /\ LET d == SubF(F, x, y) IN
               (x.c = "fin" /\ y.c = "fin" /\ d.c \in {"fin", "zero", "inf"} =>
                    (LtF(x, y) <=> (d.c # "zero" /\ d.s = 1)))
+\* the directed constants: rounding them is within half a quantum, a tie goes to the even neighbour,
+\* and for float32 some of them round differently when rounded to float64 first (the family is
+\* not vacuous for double rounding)
+SaneFCon == FDone("fcon") =>
+    LET F == job.F IN
+    /\ \A c \in ConVals(F) : LET y == Round(F, c.s, c.m, c.e) IN
+          /\ InFormat(F, y) /\ ~InFormat(F, c)
+          /\ ErrOK(F, y, c.s, c.m, c.e)
+    /\ Round(F, 0, Half(F, 1, 0).m, Half(F, 1, 0).e) = One_F                       \* tie: down to the even 1
+    /\ Round(F, 0, Half(F, 3, 0).m, Half(F, 3, 0).e) = FinM(0, BN!MAdd(BN!MPow2(F.p - 2), <<1>>), 2 - F.p)   \* tie: up to 1 + 2 ulp
+    /\ Round(F, 0, Half(F, 1, 1).m, Half(F, 1, 1).e) = OnePlus(F)
+    /\ (F = F32 => LET c == Half(F32, 1, 1) v == Round(F64, c.s, c.m, c.e) IN Round(F32, v.s, v.m, v.e) = One_F)
 SaneFConv == FDone("fconv") =>
     \A k2 \in Kinds : LET v == FloatToInt(k2, job.fa) IN
        v # Panic => /\ Canon(k2, v)
                     \* converting back gives the float truncated toward zero
                     /\ (job.fa.c = "fin" /\ job.fa.e >= 0 => IntToFloat(F64, k2, v) \in {job.fa, Unspec})
 SaneIToF == FDone("itof") =>
-    LET v == IntToFloat(job.F, job.k, job.a) IN
-    v.c # "unspec" => FloatToInt(job.k, v) = job.a
+    LET F  == job.F
+        v  == IntToFloat(F, job.k, job.a)
+        mg == BVToMag(Mag(job.k, job.a))
+    IN /\ InFormat(F, v)
+       /\ ErrOK(F, v, IF IsNeg(job.k, job.a) THEN 1 ELSE 0, mg, 0)
+       \* an integer with at most p significant bits converts exactly, and back
+       /\ (job.a = Zero => v = Zr(0))
+       /\ (job.a # Zero /\ BN!MBitLen(mg) - BN!MTz(mg) <= F.p => v.c = "fin" /\ FloatToInt(job.k, v) = job.a)
+COne == Cx(One_F, Zr(0))
 SaneCArith == FDone("carith") =>
     LET F == job.F  x == job.ca IN
-    \A y \in CVals :
+    /\ CNeg(CNeg(x)) = x
+    /\ CEq(CMul(F, x, COne), x) /\ CEq(CQuo(F, x, COne), x)
+    /\ CEq(CSub(F, x, x), Cx(Zr(0), Zr(0)))
+    /\ \A y \in CVals :
        /\ CAdd(F, x, y) = CAdd(F, y, x)
-       /\ LET q == CQuo(F, x, y) IN (CSpec(q) /\ CSpec(CMul(F, q, y)) => CEq(CMul(F, q, y), x))
-       /\ LET s == CAdd(F, x, y) IN (CSpec(s) => CEq(CSub(F, s, y), x))
-       /\ (CSpec(CMul(F, x, y)) /\ CSpec(CMul(F, y, x)) => CEq(CMul(F, x, y), CMul(F, y, x)))
+       /\ CEq(CMul(F, x, y), CMul(F, y, x))
+       /\ CEq(CSub(F, x, y), CNeg(CSub(F, y, x)))
+       /\ CSpec(CAdd(F, x, y)) /\ CSpec(CMul(F, x, y))
+       /\ InFormat(F, CMul(F, x, y).re) /\ InFormat(F, CMul(F, x, y).im)
 =============================================================================
